@@ -306,6 +306,24 @@ Theorem parse_any_moment : forall ug terminals start fuel inputs ops n w i inp r
 Proof. exact parse_any_moment_l. Qed.
 Print Assumptions parse_any_moment.
 
+(* parse(text, start_symbol_name=s), the debugging aid: its result depends on (s, text) alone, it does not
+   redirect later parse() calls [parse_any_moment holds whatever OParseFrom operations precede], and with the
+   constructor's start symbol it is parse(text) *)
+Theorem parse_from_any_moment : forall ug terminals start fuel inputs ops n w i s inp r p,
+  build ug terminals w start = Ok p ->
+  nth_error inputs i = Some inp ->
+  nth_error ops n = Some (OParseFrom w i s) ->
+  nth_error (session ug terminals start fuel inputs no_objects ops) n = Some (BParse r) ->
+  r = p_parse_from p fuel s (mk_toks inp).
+Proof. exact parse_from_any_moment_l. Qed.
+Print Assumptions parse_from_any_moment.
+
+Theorem parse_from_start : forall ug terminals smart start p k toks,
+  build ug terminals smart start = Ok p -> mem start (gkeys (p_grammar p)) = true ->
+  p_parse_from p k (p_start p) toks = p_parse p k toks.
+Proof. exact p_parse_from_start. Qed.
+Print Assumptions parse_from_start.
+
 (* the objects a program leaves behind are objects as the constructor returns them *)
 Theorem objects_stay_as_constructed : forall ug terminals start fuel inputs ops w p,
   get_obj (final_world ug terminals start fuel inputs no_objects ops) w = Some p ->
@@ -320,7 +338,7 @@ Theorem built_object_answers : forall ug terminals start fuel inputs ops W w p,
     nth_error (session ug terminals start fuel inputs W ops) n = Some b ->
     match o with
     | OAmb v => v = w -> b <> BNone
-    | OParse v i => v = w -> (i < length inputs)%nat -> b <> BNone
+    | OParse v i | OParseFrom v i _ => v = w -> (i < length inputs)%nat -> b <> BNone
     | OBuild _ => b <> BNone
     end.
 Proof. exact built_answers. Qed.
@@ -432,7 +450,7 @@ Print Assumptions ex_sentence.
 Example ex_session : exists t,
   session ex_ug ex_terms xE 8 [[(xs, xs); (xb, xb); (xq, xq); (xa, xa)]; [(xs, xs); (xb, xb)]] no_objects
     [OBuild false; OAmb false; OParse false 1; OAmb false; OParse false 0; OAmb false;
-     OParse false 1; OParse false 1; OAmb false;
+     OParseFrom false 1 xT; OParse false 1; OAmb false;
      OBuild true; OAmb true; OParse true 1; OAmb true; OParse true 0;
      OParse false 0; OAmb false; OAmb true; OParse false 7; OAmb true]
   = [BBuilt None; BAmb false; BParse (Err ParsingErr); BAmb false; BParse (Ok t); BAmb false;
@@ -441,3 +459,12 @@ Example ex_session : exists t,
      BParse (Ok t); BAmb false; BAmb false; BNone; BAmb false].
 Proof. eexists. vm_compute. reflexivity. Qed.
 Print Assumptions ex_session.
+
+(* 's b' is no sentence of E; parsed from another symbol the fragment 't' alone is none either, 'b' is one of T *)
+Example ex_parse_from : exists p t,
+  build ex_ug ex_terms false xE = Ok p /\
+  p_parse_from p 8 xT (mk_toks [(xb, xb)]) = Ok t /\
+  p_parse p 8 (mk_toks [(xb, xb)]) = Err ParsingErr /\
+  p_parse_from p 8 xa (mk_toks [(xb, xb)]) = Err AssertErr.
+Proof. eexists. eexists. split; [vm_compute; reflexivity|]. vm_compute. repeat split. Qed.
+Print Assumptions ex_parse_from.
